@@ -6,10 +6,44 @@ import os
 HERE = os.path.dirname(os.path.dirname(os.path.abspath(__file__)))
 
 CHECKS = {
+    "C01": ("census of ionizable sites derived from the PDB text alone vs the groups reported by every conformation, "
+            "AVR and the written summary/table, over built structures with varied terminus layouts, numbering, "
+            "insertion codes, hetero groups, ions, identical models and -c / -i options",
+            "reference-model monitor over boundary observations", "4.C01",
+            "census oracle (oracles/census.py) written from the property text; ligand typing has no independent oracle"),
+    "C02": ("arithmetic identity on every group of every conformation and AVR, contract at exit of every "
+            "Group.calculate_total_pka call, determinant table and summary of the .pka text vs API values, across "
+            "option sets and parameter files (remove_penalised_group/shared_determinants/common_charge_centre)",
+            "runtime contract + boundary invariant + output-vs-API monitor", "4.C02", "text tolerance 0.005"),
+    "C06": ("two-run metamorphic monitor: relabelled copy (monotone chain map, per-chain number shift, file-order "
+            "renumbering of insertion codes) must give equal per-group records matched by atom position",
+            "metamorphic two-run monitor", "4.C06", "float tolerance 1e-7; known finding icode-twins-merged"),
+    "C07": ("two-run metamorphic monitor: ignorable hetero residues, hydrogens, junk records, unused columns, "
+            "--protonate-all, -k with own hydrogens must leave every record (and the text) unchanged",
+            "metamorphic two-run monitor", "4.C07", "-k feedback judged only without H contacts < 1.5 A to a second heavy atom"),
+    "C09": ("contract on every Group.calculate_charge call and boundary checks of get_charge_profile / get_pi / charge "
+            "table / pI line against an independent Henderson-Hasselbalch evaluation from the group records",
+            "runtime contract + reference-model monitor", "4.C09", "pI tolerance = precision"),
+    "C10": ("proton linkage by central differences and Simpson integrals of the real energy/charge functions, optimum "
+            "and ranges recomputed from returned profiles, contract on every make_grid call, grid/window membership "
+            "of printed rows", "runtime contract + numerical-identity monitor", "4.C10",
+            "tolerances 2e-5*(1+N/10) and 1e-4*(1+N/10)"),
     "C11": ("contract on BondMaker.find_bonds_for_atoms_using_boxes vs O(n^2) reference over atom clouds, "
             "directed cell-boundary pairs (26 directions), CYS pairs and protein poses",
             "runtime contract + reference-model monitor",
             "4.C11", "numpy float64 arithmetic equals CPython float arithmetic; ties |d^2-t^2|<1e-9 not judged"),
+    "C12": ("fault-style workload: random and systematic (every atom, pairs of atoms, keep-k) deletions from real "
+            "structures; monitor: no exception, census of the truncated text equals the reported groups; reject "
+            "inputs must raise ValueError only", "exception monitor + reference-model monitor", "4.C12",
+            "census oracle; known finding protein-groups-covalently-coupled shared with C01"),
+    "C13": ("two-run metamorphic monitor: (-c subset, full file) vs (no option, other chains' ATOM/HETATM lines "
+            "deleted): bit-identical records and text", "metamorphic two-run monitor", "4.C13", "exact equality"),
+    "C14": ("census of the restricted run vs the list, titratable flags, exact environment relations with the "
+            "unrestricted run, all-residues == no option, non-existent entries have no effect",
+            "reference-model + metamorphic monitor", "4.C14", "blank chains excluded (no option syntax)"),
+    "C15": ("contract around every is_coupled_protonation_state_probability call (determinants and pKa restored "
+            "exactly, swaps counted), analysis on/off comparison in one process, symmetry and star clauses on live "
+            "groups", "runtime contract + on/off two-run monitor", "4.C15", "-d excluded from on/off comparison"),
     "C19": ("enumeration of the encoding order (quick: widths 1-3 complete, 4-5 boundaries+samples; thorough: all "
             "87.5M width-5 values) against a reference encoder, malformed strings against a reference grammar, "
             "contract on every decode call of pipeline runs, serial-rewrite metamorphic runs",
